@@ -524,3 +524,46 @@ def r7_purity(ctx, prog, rule, names):
                {}, fi.node)
         n += 1
     ctx.floor(rule, n, 3, "vectorised primitives examined")
+
+
+def signed_field_idiom(fnode):
+    """Known-bad sexagesimal idiom: the sign of an angle is carried by a
+    product with the integer degrees / hours field (sign(x) * dd formatted as
+    a field): for |x| < 1 the field is 0 and the sign is lost.  Returns the
+    offending product nodes that reach a str.format / % / f-string."""
+    def has_sign(e):
+        return any(isinstance(c, ast.Call) and
+                   norm(c.func).split(".")[-1] in ("sign", "copysign")
+                   for c in ast.walk(e))
+    prods = []
+    for x in ast.walk(fnode):
+        if isinstance(x, ast.BinOp) and isinstance(x.op, ast.Mult) and (
+                has_sign(x.left) != has_sign(x.right)):
+            prods.append(x)
+    out = []
+    for x in ast.walk(fnode):
+        fields = []
+        if isinstance(x, ast.Call) and isinstance(x.func, ast.Attribute) \
+                and x.func.attr == "format":
+            fields = list(x.args) + [k.value for k in x.keywords]
+        elif isinstance(x, ast.BinOp) and isinstance(x.op, ast.Mod) and \
+                isinstance(x.left, ast.Constant) and \
+                isinstance(x.left.value, str):
+            fields = x.right.elts if isinstance(x.right, ast.Tuple) \
+                else [x.right]
+        elif isinstance(x, ast.JoinedStr):
+            fields = [v.value for v in x.values
+                      if isinstance(v, ast.FormattedValue)]
+        for f in fields:
+            names = {n.id for n in ast.walk(f) if isinstance(n, ast.Name)}
+            for p_ in prods:
+                if any(y is p_ for y in ast.walk(f)):
+                    out.append(p_)
+                else:
+                    # the product was bound to a name that is formatted
+                    for st in ast.walk(fnode):
+                        if isinstance(st, ast.Assign) and st.value is p_ \
+                                and any(isinstance(t, ast.Name) and
+                                        t.id in names for t in st.targets):
+                            out.append(p_)
+    return out
